@@ -5,7 +5,7 @@ cd /verif
 if ! git -C /repo diff --quiet; then echo "/repo working tree not clean"; exit 3; fi
 git -C /repo apply "$P" || { echo "patch does not apply"; exit 3; }
 for c in "$@"; do
-  ./vf check "$c" > /tmp/try_seed_$c.log 2>&1; rc=$?
+  VF_NO_EVIDENCE=1 VF_REPLAY_DIR=/tmp/try_seed_replay ./vf check "$c" > /tmp/try_seed_$c.log 2>&1; rc=$?
   echo "== $c rc=$rc: $(grep -c '^VIOLATION' /tmp/try_seed_$c.log) violation line(s); $(tail -1 /tmp/try_seed_$c.log)"
   grep -A4 '^VIOLATION' /tmp/try_seed_$c.log | head -12 | cut -c1-400
   grep '^INCONCLUSIVE\|^ANALYSIS' /tmp/try_seed_$c.log | head -3 | cut -c1-400
